@@ -10,7 +10,8 @@ def run():
     if not res.ok:
         chk.spec_violation(res, "mc CodeGen")
     tlc.cleanup(res)
-    seeds = [0, 1, 2, 3] if chk.quick else list(range(12))
+    # (the order of two strings in a set differs for roughly every other hash seed - but not evenly: ten seeds quick)
+    seeds = [0, 1, 2, 3, 5, 7, 11, 42, 97, 1234] if chk.quick else list(range(24)) + [42, 97, 1234]
     seeds = [(s + chk.seed) % 4294967295 for s in seeds]
     jobs = [(variant, s, fmt) for variant in (0, 1) for s in seeds for fmt in ("black", "none", "cmd")]
     results = pool.parallel_map(dr.run_one, jobs)
